@@ -376,7 +376,10 @@ static void body()
                 {
                     verif_assert(field_v(SOURCE_AFTER(i)) == before[i], 120);
                     verif_assert(field_moved(SOURCE_AFTER(i)) == (expect_moved ? 1u : 0u), 121);  // moved from exactly once / not at all
-                    verif_assert(field_how(span[i]) == (expect_moved ? 2u : 1u), 122);
+                    if (FORM != 8 && FORM != 12)  // a generated range hands out prvalues: constructing from them is a move of the temporary
+                    {
+                        verif_assert(field_how(span[i]) == (expect_moved ? 2u : 1u), 122);
+                    }
                 }
                 else
                 {
